@@ -13,31 +13,29 @@ ER = "scpi_contrib::scpi1999::EventRegister"
 FIELDS5 = {"condition", "event", "enable", "ntr_filter", "ptr_filter"}
 
 
-def eval_bits(desc, env):
-    """Evaluate a snapshot of a bitwise expression for single-bit inputs. env: name -> 0/1."""
-    if desc[0] == "K":
-        # constants: only all-zeros / all-ones are bit-uniform
-        if desc[1] in (0,):
-            return 0
-        if desc[1] in (0xFFFF, -1, 0xFFFFFFFF):
-            return 1
-        raise ValueError("non-uniform constant %r" % (desc[1],))
-    if desc[0] == "sym":
-        d = desc[2]
-        if isinstance(d, str):
-            if d.startswith("field:"):
-                return env[d[6:]]
-            if d in env:
-                return env[d]
-            raise ValueError("unknown leaf %r" % (d,))
-        if d[0] == "binop":
-            a, b = eval_bits(d[2], env), eval_bits(d[3], env)
-            return {"BitAnd": a & b, "BitOr": a | b, "BitXor": a ^ b}[d[1]]
-        if d[0] == "not":
-            raise ValueError("not-by-id")
-        if d[0] == "unop" and d[1] == "Not":
-            return 1 - eval_bits(d[2], env)
-    raise ValueError("unsupported node %r" % (desc[:2],))
+def latch_spec(event, old, new, ptr, ntr):
+    """IEEE 488.2 / SCPI-99 20.1.3-5: the event bit latches a 0->1 transition passed by the positive filter or a
+    1->0 transition passed by the negative filter"""
+    rise = ~old & new & ptr
+    fall = old & ~new & ntr
+    return (event | rise | fall) & 0xFFFF
+
+
+# Bit-sliced inputs: the five 16-bit words below put every combination of (old, new, ptr, ntr) - 16 combinations - on
+# one of the 16 bit positions, so one evaluation per value of the previous event word covers the whole per-bit truth
+# table; further words (shifted / complemented) put each combination on other bit positions as well, bit 15 included.
+SLICE = {"old": 0xAAAA, "new": 0xCCCC, "ptr": 0xF0F0, "ntr": 0xFF00}
+
+
+def sliced_inputs(thorough):
+    rots = range(16) if thorough else (0, 1, 5, 15)
+    out = []
+    for r in rots:
+        rot = lambda x: ((x << r) | (x >> (16 - r))) & 0xFFFF
+        for event in (0x0000, 0xFFFF, 0x5A5A):
+            out.append((rot(event), rot(SLICE["old"]), rot(SLICE["new"]), rot(SLICE["ptr"]), rot(SLICE["ntr"])))
+    out += [(0, 0, 0xFFFF, 0xFFFF, 0), (0, 0xFFFF, 0, 0, 0xFFFF), (0, 0, 0xFFFF, 0, 0xFFFF), (0, 0xFFFF, 0, 0xFFFF, 0), (0x8000, 0x7FFF, 0x8000, 0x8000, 0x7FFF), (0, 0x1234, 0x1234, 0xFFFF, 0xFFFF)]
+    return out
 
 
 def run(R, tier):
@@ -50,146 +48,135 @@ def run(R, tier):
         return
     fields = [f["name"] for f in adt["variants"][0]["fields"]]
     R.check(set(fields) == FIELDS5, "R15.6", "fields", "EventRegister = %s" % fields, "EventRegister fields changed: %s" % fields)
-    eng = CB.engine("scpi_contrib")
+    from . import devmodel as DM
+    deng = DM.engine()
+    thorough = tier == "thorough"
 
     # ---- R15.1 latch formula -----------------------------------------------------------------------
     b = uc.body(ER + "::set_condition")
-    eff = CB.field_effects(eng, b, ER, fields, [SymV("new", "new")])
-    good = len(eff) == 1
-    bad_rows = []
-    if good:
-        r, vals = eff[0]
-        ev = snapshot(vals["event"])
-        try:
-            for e_, c_, n_, p_, q_ in itertools.product((0, 1), repeat=5):
-                env = {"event": e_, "condition": c_, "new": n_, "ptr_filter": p_, "ntr_filter": q_, "enable": 0}
-                got = eval_bits(ev, env)
-                exp = e_ | ((1 - c_) & n_ & p_) | (c_ & (1 - n_) & q_)
-                if got != exp:
-                    bad_rows.append((env, got, exp))
-        except (ValueError, KeyError) as ex:
-            bad_rows.append(("undecidable: %s" % ex, None, None))
-        cond_ok = isinstance(vals["condition"], SymV) and vals["condition"].id == "new"
-        others_ok = all(CB.unchanged(vals[n], n) for n in ("enable", "ntr_filter", "ptr_filter"))
-        no_calls = not [e for e in r.trace if e.kind == "call"]
-    R.check(good and not bad_rows, "R15.1", "set_condition:latch", "event' = event | (0->1 & ptr) | (1->0 & ntr) on all 32 rows", "set_condition does not latch filtered transitions: event' differs from event | (rise & ptr) | (fall & ntr) for %s" % (bad_rows[:3],), where=b.span)
-    if good:
-        R.check(cond_ok and others_ok and no_calls, "R15.1", "set_condition:state", "condition := new; enable and filters untouched", "set_condition must store the new condition and leave enable/filters alone: condition=%r enable=%r ntr=%r ptr=%r" % (vals["condition"], vals["enable"], vals["ntr_filter"], vals["ptr_filter"]), where=b.span)
-        R.sample({"rule": "R15.1", "event_expression": repr(ev)[:400], "rows": 32})
-    for meth, op in (("set_condition_bits", "BitOr"), ("clear_condition_bits", "BitAnd")):
+    bad = []
+    n = 0
+    for event, old, new, ptr, ntr in sliced_inputs(thorough):
+        for enable in (0x0000, 0xA5A5):
+            n += 1
+            cell = DM.mk_register(uc, condition=old, event=event, enable=enable, ntr_filter=ntr, ptr_filter=ptr)
+            rs = DM.run(deng, b, DM.Dev(), [RefV(cell, (), True), K(new)], {"regcell": cell})
+            exp = {"condition": new, "event": latch_spec(event, old, new, ptr, ntr), "enable": enable, "ntr_filter": ntr, "ptr_filter": ptr}
+            got = DM.reg_values(uc, cell) if len(rs) == 1 else None
+            # the register cell lives in the returned state
+            if len(rs) == 1 and rs[0][0].outcome == "return":
+                got = _reg_after(DM, uc, rs[0][0], cell)
+            if got != exp and len(bad) < 3:
+                diff = (got or {}).get("event")
+                bad.append("event=%#06x condition %#06x -> %#06x ptr=%#06x ntr=%#06x: register becomes %s, expected %s%s" % (event, old, new, ptr, ntr, got, exp, "" if diff is None else " (event bits differing: %#06x)" % (diff ^ exp["event"])))
+    R.check(not bad, "R15.1", "set_condition:latch", "event' = event | (0->1 & ptr) | (1->0 & ntr), condition := new, enable/filters untouched - bit-sliced over all 32 per-bit combinations on several bit positions (%d evaluations)" % n, "; ".join(bad), where=b.span)
+    R.count("latch_evaluations", n)
+    for meth, fn in (("set_condition_bits", lambda c_, m_: c_ | m_), ("clear_condition_bits", lambda c_, m_: c_ & ~m_ & 0xFFFF)):
         bb = uc.body(ER + "::" + meth)
-        cell = Cell(AggV(ER, {i: SymV("f:" + n, "field:" + n) for i, n in enumerate(fields)}), "self")
-        res = eng.run(bb, [RefV(cell, (), True), SymV("mask", "mask")])
-        ok = len(res) == 1
-        if ok:
-            p = CB.Path(res[0])
-            sc = p.call("set_condition")
-            ok = p.names == ["set_condition"] and sc is not None
-            if ok:
-                bo = CB.binop_of(sc.args[1], op)
-                ok = bo is not None and bo[0] == ("sym", "f:condition", "field:condition")
-                if op == "BitOr":
-                    ok = ok and bo[1] == ("sym", "mask", "mask")
-                else:
-                    ok = ok and bo[1][0] == "sym" and bo[1][2][0] == "unop" and bo[1][2][1] == "Not" and bo[1][2][2] == ("sym", "mask", "mask")
-        R.check(ok, "R15.1", meth, "set_condition(condition %s mask)" % ("|" if op == "BitOr" else "& !"), "%s must go through set_condition(condition %s mask)" % (meth, "| " if op == "BitOr" else "& !"), where=bb.span)
+        bad = []
+        for old, mask in ((0x0000, 0x00FF), (0xFFFF, 0x0F0F), (0xAAAA, 0xCCCC), (0x8001, 0x8000), (0x1234, 0x0000)):
+            for ptr, ntr in ((0xFFFF, 0x0000), (0x0000, 0xFFFF), (0xF0F0, 0xFF00)):
+                cell = DM.mk_register(uc, condition=old, event=0x0101, enable=0x0033, ntr_filter=ntr, ptr_filter=ptr)
+                rs = DM.run(deng, bb, DM.Dev(), [RefV(cell, (), True), K(mask)], {"regcell": cell})
+                new = fn(old, mask)
+                exp = {"condition": new, "event": latch_spec(0x0101, old, new, ptr, ntr), "enable": 0x0033, "ntr_filter": ntr, "ptr_filter": ptr}
+                got = _reg_after(DM, uc, rs[0][0], cell) if len(rs) == 1 and rs[0][0].outcome == "return" else None
+                if got != exp:
+                    bad.append("condition=%#06x mask=%#06x ptr=%#06x ntr=%#06x: %s, expected %s" % (old, mask, ptr, ntr, got, exp))
+        R.check(not bad, "R15.1", meth, "condition %s mask, with the transition latched like set_condition" % ("|" if "set_" in meth else "& !"), "; ".join(bad[:2]), where=bb.span)
 
     # ---- R15.5 preset / clear_event ------------------------------------------------------------------------
-    b = uc.body(ER + "::preset")
-    eff = CB.field_effects(eng, b, ER, fields)
-    ok = len(eff) == 1
+    for meth, change in (("preset", {"enable": 0, "ptr_filter": 0xFFFF, "ntr_filter": 0}), ("clear_event", {"event": 0})):
+        bb = uc.body(ER + "::" + meth)
+        bad = []
+        for vals in ({"condition": 0x1111, "event": 0x2222, "enable": 0x3333, "ntr_filter": 0x4444, "ptr_filter": 0x5555}, {"condition": 0xFFFF, "event": 0xFFFF, "enable": 0xFFFF, "ntr_filter": 0xFFFF, "ptr_filter": 0x0000}, {"condition": 0, "event": 0, "enable": 0, "ntr_filter": 0, "ptr_filter": 0}):
+            cell = DM.mk_register(uc, **vals)
+            rs = DM.run(deng, bb, DM.Dev(), [RefV(cell, (), True)], {"regcell": cell})
+            exp = dict(vals)
+            exp.update(change)
+            got = _reg_after(DM, uc, rs[0][0], cell) if len(rs) == 1 and rs[0][0].outcome == "return" else None
+            if got != exp:
+                bad.append("%s -> %s, expected %s" % (vals, got, exp))
+        R.check(not bad, "R15.5", meth, " / ".join("%s := %#06x" % kv for kv in change.items()) + "; every other field untouched", "; ".join(bad[:2]), where=bb.span)
+    # STATus:PRESet and *CLS reach both register sets
+    def both(**vals):
+        return {"Operation": DM.mk_register(uc, **vals), "Questionable": DM.mk_register(uc, **{k: v ^ 0x0F0F for k, v in vals.items()})}
+    hb = DM.find_handler(uc, "StatPresetCommand", "event")
+    start = {"condition": 0x1111, "event": 0x2222, "enable": 0x3333, "ntr_filter": 0x4444, "ptr_filter": 0x5555}
+    dev = DM.Dev(esr=0x12, ese=0x34, sre=0x56, queue=[SymV("e0", "e0")], regs=both(**start))
+    rs = DM.run(deng, hb, dev, DM.handler_args(event=True))
+    ok = len(rs) == 1 and M.outcome(rs[0][0]) == "Ok"
     if ok:
-        _, v = eff[0]
-        ok = isinstance(v["enable"], K) and v["enable"].v == 0 and isinstance(v["ptr_filter"], K) and v["ptr_filter"].v == 0xFFFF and isinstance(v["ntr_filter"], K) and v["ntr_filter"].v == 0 and CB.unchanged(v["event"], "event") and CB.unchanged(v["condition"], "condition")
-        detail = {k: repr(x) for k, x in v.items()}
-    R.check(ok, "R15.5", "preset", "enable := 0, ptr := 0xFFFF, ntr := 0; event and condition untouched", "EventRegister::preset must set enable 0, positive filter all ones, negative filter 0 and nothing else: %s" % (detail if eff else "?"), where=b.span)
-    b = uc.body(ER + "::clear_event")
-    eff = CB.field_effects(eng, b, ER, fields)
-    ok = len(eff) == 1
+        d = rs[0][1]
+        exp_o = dict(start, enable=0, ptr_filter=0xFFFF, ntr_filter=0)
+        exp_q = dict({k: v ^ 0x0F0F for k, v in start.items()}, enable=0, ptr_filter=0xFFFF, ntr_filter=0)
+        ok = DM.reg_values(uc, d.regs["Operation"]) == exp_o and DM.reg_values(uc, d.regs["Questionable"]) == exp_q and d.r8 == {"esr": 0x12, "ese": 0x34, "sre": 0x56} and len(d.queue) == 1
+    R.check(ok, "R15.5", "STATus:PRESet", "both register sets: enable 0, positive filter all ones, negative filter 0; events, conditions, ESR/ESE/SRE and the queue untouched", "STATus:PRESet: %s" % [(M.outcome(r), {k: DM.reg_values(uc, c_) for k, c_ in d.regs.items()}, d.r8) for r, d in rs], where=hb.span)
+    hb = DM.find_handler(uc, "ClsCommand", "event")
+    dev = DM.Dev(esr=0x12, ese=0x34, sre=0x56, queue=[SymV("e0", "e0")], regs=both(**start))
+    rs = DM.run(deng, hb, dev, DM.handler_args(event=True))
+    ok = len(rs) == 1 and M.outcome(rs[0][0]) == "Ok"
     if ok:
-        _, v = eff[0]
-        ok = isinstance(v["event"], K) and v["event"].v == 0 and all(CB.unchanged(v[n], n) for n in fields if n != "event")
-    R.check(ok, "R15.5", "clear_event", "event := 0 only", "clear_event must clear the event register only", where=b.span)
-    # device-level preset reaches both register sets
-    b = uc.body("scpi_contrib::scpi1999::ScpiDevice::preset")
-    regs = sorted(tuple(c.gargs()[1:2]) for c in b.calls() if c.name.endswith("preset_register"))
-    R.check(regs == [("scpi1999::status::operation::Operation",), ("scpi1999::status::questionable::Questionable",)], "R15.5", "ScpiDevice::preset", "presets OPERation and QUEStionable once each", "STATus:PRESet must preset both register sets once each: %s" % regs, where=b.span)
-    b = uc.body("scpi_contrib::scpi1999::ScpiDevice::preset_register")
-    e = [c.name.split("::")[-1] for c in b.calls()]
-    R.check(e == ["register_mut", "preset"], "R15.5", "preset_register", "register_mut().preset()", "preset_register must be register_mut().preset(): %s" % e, where=b.span)
-    b = uc.body("scpi_contrib::scpi1999::ScpiDevice::scpi_cls")
-    regs = sorted(tuple(c.gargs()[1:2]) for c in b.calls() if c.name.endswith("get_register_mut"))
-    n_clear = sum(1 for c in b.calls() if c.name.endswith("EventRegister::clear_event"))
-    R.check(regs == [("scpi1999::status::operation::Operation",), ("scpi1999::status::questionable::Questionable",)] and n_clear == 2, "R15.5", "*CLS:event-registers", "clear_event on OPERation and QUEStionable", "*CLS must clear the event register of both register sets (found %s, %d clear_event calls)" % (regs, n_clear), where=b.span)
+        d = rs[0][1]
+        ok = DM.reg_values(uc, d.regs["Operation"]) == dict(start, event=0) and DM.reg_values(uc, d.regs["Questionable"]) == dict({k: v ^ 0x0F0F for k, v in start.items()}, event=0)
+    R.check(ok, "R15.5", "*CLS:event-registers", "event registers of both sets cleared; enable, filters and conditions untouched", "*CLS: %s" % [(M.outcome(r), {k: DM.reg_values(uc, c_) for k, c_ in d.regs.items()}) for r, d in rs], where=hb.span)
 
-    # ---- R15.2-4 command handlers -----------------------------------------------------------------------------------
-    def handlers(type_name, method):
-        return [x for x in uc.bodies if x.name == method and (x.impl_self or "").split("<")[0].endswith(type_name) and "Command" in (x.impl_trait or "")]
-
-    def run_handler(body, is_query):
-        e = CB.engine("scpi_contrib")
-        args = [RefV(Cell(TOP, "cmd")), RefV(Cell(TOP, "dev"), (), True), RefV(Cell(TOP, "ctx"), (), True), RefV(Cell(SymV("params", "params"), "params"), (), True)]
-        if is_query:
-            args = args[:3] + [SymV("params", "params"), SymV("response", "response")]
-        else:
-            args = args[:3] + [SymV("params", "params")]
-        return [CB.Path(r) for r in e.run(body, args)]
-
-    def masked_field(snap, field, via):
-        """snap == (<reg>.field & 0x7FFF) where <reg> came from `via`()"""
-        bo = CB.binop_of(snap, "BitAnd")
-        if bo is None:
-            return False
-        a, b_ = bo
-        if b_ != ("K", 0x7FFF):
-            a, b_ = b_, a
-        return b_ == ("K", 0x7FFF) and field in repr(a) and via in repr(a)
-
-    # EVENt?
-    hs = handlers("EventCommand", "query")
-    if len(hs) != 1:
-        R.anchor_lost("R15.2", "EventCommand::query")
-    else:
-        ps = run_handler(hs[0], True)
-        ok = len(ps) == 1
-        if ok:
-            p = ps[0]
-            rp = p.call("replace")
-            d = p.call("data")
-            ok = p.names == ["register_mut", "replace", "data", "finish"] and rp.args[1] == ("K", 0) and p.outcome == "ret:finish"
-            # the place replaced is the `event` field of the register
-            mir = hs[0].mir
-            borrowed = CB.stores_to_fields(hs[0], FIELDS5)
-            ok = ok and [x[0] for x in borrowed] == ["event"]
-            bo = CB.binop_of(d.args[1], "BitAnd")
-            ok = ok and bo is not None and ("K", 0x7FFF) in bo and any(CB.ret_of(x, "replace") for x in bo)
-        R.check(ok, "R15.2", "EVENt?", "answers mem::replace(&mut register.event, 0) & 0x7FFF: reads and clears", "EVENt? must return the event register (masked to 15 bits) and clear it: %s" % [p.describe() for p in ps], where=hs[0].span)
-    for tname, field, rule in (("ConditionCommand", "condition", "R15.2"), ("EnableCommand", "enable", "R15.4"), ("NTransitionCommand", "ntr_filter", "R15.4"), ("PTransitionCommand", "ptr_filter", "R15.4")):
-        hs = handlers(tname, "query")
-        if len(hs) != 1:
-            R.anchor_lost(rule, tname + "::query")
+    # ---- R15.2-4 command handlers (both register sets) -----------------------------------------------------------------------------------
+    vals16 = [0x0000, 0xFFFF, 0x8000, 0x7FFF, 0x8001, 0x1234, 0xA5A5]
+    for tname, field, rule, clears in (("EventCommand", "event", "R15.2", True), ("ConditionCommand", "condition", "R15.2", False), ("EnableCommand", "enable", "R15.4", False), ("NTransitionCommand", "ntr_filter", "R15.4", False), ("PTransitionCommand", "ptr_filter", "R15.4", False)):
+        try:
+            hb = DM.find_handler(uc, tname, "query")
+        except facts.AnchorLost as e:
+            R.anchor_lost(rule, str(e))
             continue
-        ps = run_handler(hs[0], True)
-        ok = len(ps) == 1
-        if ok:
-            p = ps[0]
-            d = p.call("data")
-            reads = _field_reads(hs[0], FIELDS5)
-            ok = p.names == ["register", "data", "finish"] and p.outcome == "ret:finish" and reads == [field] and not CB.stores_to_fields(hs[0], FIELDS5)
-            bo = CB.binop_of(d.args[1], "BitAnd") if d else None
-            ok = ok and bo is not None and ("K", 0x7FFF) in bo
-        R.check(ok, rule, tname.replace("Command", "") + "?", "answers register().%s & 0x7FFF without modifying anything" % field, "%s query must report field `%s` masked with 0x7FFF through the shared (non-mut) register: %s reads=%s" % (tname, field, [p.describe() for p in ps], _field_reads(hs[0], FIELDS5)), where=hs[0].span)
-        if tname == "ConditionCommand":
+        bad = []
+        for which in ("Operation", "Questionable"):
+            for v in vals16:
+                start = {"condition": 0x0101, "event": 0x0202, "enable": 0x0404, "ntr_filter": 0x0808, "ptr_filter": 0x1010}
+                start[field] = v
+                other = {k: x ^ 0x00F0 for k, x in start.items()}
+                regs = {which: DM.mk_register(uc, **start), ("Questionable" if which == "Operation" else "Operation"): DM.mk_register(uc, **other)}
+                dev = DM.Dev(esr=0x12, ese=0x34, sre=0x56, queue=[SymV("e0", "e0")], regs=regs)
+                st0 = fdai.State()
+                rs = _run_on(DM, deng, hb, dev, which, DM.handler_args())
+                ok = len(rs) == 1 and M.outcome(rs[0][0]) in ("Ok", "ret:finish")
+                if ok:
+                    d = rs[0][1]
+                    exp_reg = dict(start)
+                    if clears:
+                        exp_reg[field] = 0
+                    ok = len(d.data) == 1 and isinstance(d.data[0], K) and d.data[0].v == (v & 0x7FFF) and DM.reg_values(uc, d.regs[which]) == exp_reg
+                    ok = ok and DM.reg_values(uc, d.regs["Questionable" if which == "Operation" else "Operation"]) == other and d.r8 == {"esr": 0x12, "ese": 0x34, "sre": 0x56} and len(d.queue) == 1
+                if not ok and len(bad) < 3:
+                    bad.append("%s %s=%#06x: answers %s, register %s" % (which, field, v, [d.data for _, d in rs], [DM.reg_values(uc, d.regs[which]) for _, d in rs]))
+        R.check(not bad, rule, tname.replace("Command", "") + "?", "answers `%s` with bit 15 clear%s; nothing else changes (both register sets, %d values)" % (field, " and clears it" if clears else "", len(vals16)), "; ".join(bad), where=hb.span)
+        if tname in ("EventCommand", "ConditionCommand"):
             continue
-        hs = handlers(tname, "event")
-        if len(hs) != 1:
-            R.anchor_lost(rule, tname + "::event")
-            continue
-        st = CB.stores_to_fields(hs[0], FIELDS5)
-        calls = [c.name.split("::")[-1] for c in hs[0].calls()]
-        gar = [c.gargs() for c in hs[0].calls() if c.name.endswith("next_data")]
-        ok = [x[0] for x in st] == [field] and calls.count("next_data") == 1 and calls.count("register_mut") == 1 and gar and gar[0][-1] == "u16"
-        R.check(ok, rule, tname.replace("Command", "") + " <value>", "stores the u16 parameter into `%s`" % field, "%s must store its (u16) parameter into field `%s`: stores %s" % (tname, field, st), where=hs[0].span)
+        hb = DM.find_handler(uc, tname, "event")
+        gar = [c.gargs() for c in hb.calls() if c.name.endswith("next_data")]
+        bad = [] if (gar and gar[0][-1] == "u16") or not gar else ["the parameter is not read as a u16: %s" % gar]
+        for which in ("Operation", "Questionable"):
+            for v in vals16:
+                start = {"condition": 0x0101, "event": 0x0202, "enable": 0x0404, "ntr_filter": 0x0808, "ptr_filter": 0x1010}
+                other = {k: x ^ 0x00F0 for k, x in start.items()}
+                regs = {which: DM.mk_register(uc, **start), ("Questionable" if which == "Operation" else "Operation"): DM.mk_register(uc, **other)}
+                dev = DM.Dev(esr=0x12, ese=0x34, sre=0x56, queue=[SymV("e0", "e0")], regs=regs)
+                dev.params = [v]
+                rs = _run_on(DM, deng, hb, dev, which, DM.handler_args(event=True))
+                exp_reg = dict(start)
+                exp_reg[field] = v
+                ok = len(rs) == 1 and M.outcome(rs[0][0]) == "Ok" and DM.reg_values(uc, rs[0][1].regs[which]) == exp_reg and DM.reg_values(uc, rs[0][1].regs["Questionable" if which == "Operation" else "Operation"]) == other
+                if not ok and len(bad) < 3:
+                    bad.append("%s %s := %#06x: %s" % (which, field, v, [(M.outcome(r), DM.reg_values(uc, d.regs[which])) for r, d in rs]))
+            # a conversion error stores nothing
+            regs = {which: DM.mk_register(uc, **start), ("Questionable" if which == "Operation" else "Operation"): DM.mk_register(uc, **other)}
+            dev = DM.Dev(regs=regs)
+            dev.params = [("err", SymV("conversion-error", "conversion-error"))]
+            rs = _run_on(DM, deng, hb, dev, which, DM.handler_args(event=True))
+            ok = len(rs) == 1 and M.outcome(rs[0][0]).startswith("Err(") and DM.reg_values(uc, rs[0][1].regs[which]) == start
+            if not ok:
+                bad.append("%s conversion error: %s" % (which, [(M.outcome(r), DM.reg_values(uc, d.regs[which])) for r, d in rs]))
+        R.check(not bad, rule, tname.replace("Command", "") + " <value>", "stores the 16-bit parameter in `%s` of the addressed register set and nothing else; a conversion error stores nothing" % field, "; ".join(bad[:3]), where=hb.span)
 
     # ---- R15.6 who writes the fields -----------------------------------------------------------------------------------------
     allowed = {
@@ -210,6 +197,24 @@ def run(R, tier):
             ok = any(a in who for a in allowed[fld])
             R.check(ok, "R15.6", "writer:%s<-%s" % (fld, body.npath.split("::")[-1] if not body.impl_self else body.impl_self.split("::")[-1].split("<")[0] + "::" + (body.name or "")), "allowed writer", "%s writes (%s) the `%s` field: only %s may - any other store bypasses the transition latch / the command semantics" % (body.npath, kind, fld, sorted(allowed[fld])), where=line)
     R.floor("R15.6", "field writes", n_w, 5)
+
+
+def _reg_after(DM, uc, r, cell):
+    """values of a register that was passed by reference: the cell travels in the state as argument 1 of the frame;
+    states are deep-copied on forks, so it is looked up through the result's recorded cells"""
+    c2 = r.extra.get("regcell")
+    return DM.reg_values(uc, c2 if c2 is not None else cell)
+
+
+def _run_on(DM, eng, body, dev, which, args):
+    """run a generic register command with `which` as the register set its type parameter names"""
+    st = fdai.State()
+    st.extra["dev"] = dev
+    st.extra["only_register"] = which
+    out = []
+    for r in eng.run(body, args, st):
+        out.append((r, r.extra.get("dev")))
+    return out
 
 
 def _field_reads(body, names):
